@@ -264,6 +264,63 @@ func (p *Program) prove(pr *Prover, re *regexp.Regexp, prop string, verbose bool
 		}
 	}
 	var canaryProved []*Oblig
+	// lemmas of the contract files: closed formulas proved from the axioms (definitions) alone, once, and then
+	// available to every VC like an axiom
+	if re == nil || re.MatchString("lemmas") {
+		lvc := newVC(p.u, p.cs, "lemmas")
+		lvc.declare("R0", "Bool")
+		lvc.assume("R0")
+		for i, ax := range p.cs.Axioms {
+			if ax.Kind != "lemma" {
+				continue
+			}
+			env := &SpecEnv{vc: lvc, vars: map[string]TV{}, st: State{}}
+			body := ax.E
+			// an outermost universal quantifier is replaced by fresh constants (the goal becomes quantifier-free,
+			// so the complete string procedures apply)
+			if q, ok := body.(*EQuant); ok && q.Forall {
+				for _, qv := range q.Vars {
+					ty, err := p.u.tyOfTypeExpr(qv.Ty, p.cs)
+					if err != nil {
+						res.Errors = append(res.Errors, fmt.Sprintf("lemmas: %s:%d: %v", ax.File, ax.Line, err))
+						continue
+					}
+					env.vars[qv.Name] = TV{lvc.fresh("sk_"+qv.Name, ty.Sort()), ty}
+				}
+				body = q.Body
+			}
+			tv, err := env.tr(body)
+			if err != nil {
+				res.Errors = append(res.Errors, fmt.Sprintf("lemmas: %s:%d: %v", ax.File, ax.Line, err))
+				continue
+			}
+			lbl := ax.Label
+			if lbl == "" {
+				lbl = fmt.Sprint(i)
+			}
+			lvc.oblige(&Oblig{Name: "lemmas/" + lbl, Kind: "lemma", Props: ax.Props, Guard: "R0", Goal: tv.T, Clause: ax.Src, Where: fmt.Sprintf("%s:%d", ax.File, ax.Line)})
+		}
+		if len(lvc.obligs) > 0 {
+			res.Functions = append(res.Functions, "lemmas")
+			lvc.rootAssum = append(lvc.rootAssum, lvc.unfoldInstances()...)
+			prelude := lvc.prelude(p.cs.RawSMT)
+			for _, o := range lvc.obligs {
+				o := o
+				if prop != "" && !hasProp(o.Props, prop) {
+					continue
+				}
+				if p.oblRe != nil && !p.oblRe.MatchString(o.Name) {
+					continue
+				}
+				if hasProp(o.Props, "thorough") && pr.tier != "thorough" && p.oblRe == nil {
+					res.Assumptions = append(res.Assumptions, "lemma "+o.Name+" is checked in the thorough tier only (string reasoning, no code involved): "+o.Clause)
+					continue
+				}
+				axioms := p.axiomsForLemma(lvc, o)
+				jobs = append(jobs, func() *Verdict { return pr.discharge(lvc, o, prelude, axioms) })
+			}
+		}
+	}
 	all := pr.dischargeAll(append(jobs, canaries...))
 	for i, v := range all {
 		res.SolverMs += v.Ms
@@ -337,7 +394,7 @@ func (p *Program) prove(pr *Prover, re *regexp.Regexp, prop string, verbose bool
 
 func hasProp(props []string, p string) bool {
 	for _, q := range props {
-		if q == p || q == "*" {
+		if q == p || (q == "*" && p != "thorough") {
 			return true
 		}
 	}
@@ -386,6 +443,23 @@ func (p *Program) axiomsFor(vc *VC) []string {
 		for _, s := range p.allStringConsts() {
 			out = append(out, eq("(ToLower "+smtString(s)+")", smtString(strings.ToLower(s))))
 		}
+	}
+	return out
+}
+
+// axiomsForLemma: a lemma is proved from the axioms (definitions) only, never from other lemmas.
+func (p *Program) axiomsForLemma(vc *VC, o *Oblig) []string {
+	var out []string
+	for _, ax := range p.cs.Axioms {
+		if ax.Kind != "axiom" {
+			continue
+		}
+		env := &SpecEnv{vc: vc, vars: map[string]TV{}, st: State{}}
+		tv, err := env.tr(ax.E)
+		if err != nil {
+			continue
+		}
+		out = append(out, tv.T)
 	}
 	return out
 }
